@@ -72,6 +72,7 @@ def strategy(tier):
                 max_size=3,
             ),
             "h2": gen.histories(max_len=18),
+            "late": st.one_of(st.just(0), st.just(0), st.integers(1, 3)),
             "env": st.fixed_dictionaries(
                 {
                     "builder": gen.pick(sorted(obs.BUILDERS)),
@@ -85,11 +86,13 @@ def strategy(tier):
     )
 
 
-def build_world(case, instance):
-    d = Dispatcher(instance, build_filter(case["filters"]))
-    singles = set()
-    features = []
-    for item in case["items"]:
+def build_world(case, instance, items=None, world=None):
+    """Creates the observers of `items` (default: all) on a new dispatcher, or
+    continues on an existing world (dispatcher, singles, features)."""
+    if world is None:
+        world = (Dispatcher(instance, build_filter(case["filters"])), set(), [])
+    d, singles, features = world
+    for item in case["items"] if items is None else items:
         kind = item[0]
         if kind == "feature":
             features.append(obs.make_feature_observer(d, item[1:]))
@@ -116,7 +119,7 @@ def build_world(case, instance):
         elif kind == "composite":
             if features:
                 CompositeFeatureObserver(d, feature_observers=list(features))
-    return d
+    return world
 
 
 def drive(d, instance, inst, history, limit, trace=None):
@@ -182,11 +185,21 @@ def check_case(case, ctx):
     inst = case["inst"]
     # ---- dispatcher level
     inst_a, inst_b = build_instance(inst), build_instance(inst)
-    used = build_world(case, inst_a)
-    fresh = build_world(case, inst_b)
+    # the last `late` observers of the configuration are created while the
+    # first (abandoned) episode is already under way - e.g. lazily, on first
+    # use; after the reset they too must look like new
+    late = min(case.get("late", 0), len(case["items"]) - 1)
+    early_items = case["items"][: len(case["items"]) - late]
+    late_items = case["items"][len(case["items"]) - late :]
+    used_world = build_world(case, inst_a, early_items)
+    used = used_world[0]
+    fresh = build_world(case, inst_b)[0]
     longest = 0
-    for hist, limit in case["abandoned"]:
+    for idx, (hist, limit) in enumerate(case["abandoned"]):
         longest = max(longest, drive(used, inst_a, inst, hist, limit))
+        if idx == 0 and late_items:
+            build_world(case, inst_a, late_items, used_world)
+            ctx.label("late_created_observers")
         used.reset()
         ctx.count("resets")
     s_used, s_fresh = obs.full_snapshot(used), obs.full_snapshot(fresh)
